@@ -1194,11 +1194,53 @@ def register_all(M):
     @reg("Iterator::nth")
     def m_nth(it, args, callee):
         src = deref(args[0])
-        n = as_int(it, args[1], 0, 64, "nth")
+        n = args[1]
+        if is_sym(n):
+            # any index: one of the elements there are, or past the end
+            items = []
+            while len(items) <= 64:
+                o = src.next(it)
+                if o.variant == 0:
+                    break
+                items.append(o)
+            conds = [simp(bv(n, 64) == k) for k in range(len(items))]
+            conds.append(simp(z3.UGE(bv(n, 64), len(items))))
+            i = it.st.choose(conds)
+            return items[i] if i < len(items) else none()
         for _ in range(n):
             if src.next(it).variant == 0:
                 return none()
         return src.next(it)
+
+    @reg("Option::iter", "Option::iter_mut")
+    def m_opt_iter(it, args, callee):
+        o = option_of(args[0])
+        return ItOwned([Ref(o.fields, 0, "mut" in callee)] if o.variant == 1 else [])
+
+    @reg("str::bytes")
+    def m_str_bytes(it, args, callee):
+        out = []
+        for c in elems_of(args[0]):
+            if not is_sym(c):
+                out.extend(chr(c).encode("utf-8"))
+            elif it.st.branch(simp(z3.ULT(c, 0x80))):
+                out.append(simp(z3.Extract(7, 0, c)))
+            else:
+                raise Unsupported("str::bytes of a symbolic non-ASCII character")
+        return ItOwned(out)
+
+    @reg("Path::display", "PathBuf::display", "Path::to_string_lossy", "Path::to_str", "OsStr::to_string_lossy")
+    def m_path_display(it, args, callee):
+        d = deref(args[0])
+        pl = []
+        for x in (d.payload or ()) if isinstance(d, Opaque) else elems_of(d):
+            pl.extend([ord(ch) for ch in x] if isinstance(x, str) else [x])
+        name = method_name(callee)
+        if name == "to_str":
+            return some(Str(pl))
+        if name == "to_string_lossy":
+            return Agg("adt:Cow", 0, [Str(pl)])
+        return Opaque("PathBuf", tuple(pl))
 
     @reg("Iterator::fold")
     def m_fold(it, args, callee):
@@ -1552,6 +1594,13 @@ def register_all(M):
             return list(v.elems)
         if isinstance(v, Agg) and v.kind == "adt:Cow":
             return list(elems_of(v))
+        if isinstance(v, Opaque) and v.tag in ("PathBuf", "OsString"):
+            out = []
+            for x in (v.payload or ()):
+                out.extend([ord(ch) for ch in x] if isinstance(x, str) else [x])
+            return out
+        if isinstance(v, Opaque) and ("Error" in v.tag):
+            return [ord(ch) for ch in "error"]        # the text of an error message: nothing depends on it
         if isinstance(v, int) and not isinstance(v, bool):
             if v >= (1 << 31) and v < (1 << 32):
                 v -= 1 << 32
@@ -2597,6 +2646,26 @@ def register_all(M):
         if name == "rsplit":
             parts.reverse()
         return ItOwned([Str(p) for p in parts])
+
+    @reg("Error::column", "Error::line")
+    def m_error_position(it, args, callee):
+        # serde_json::Error: where the parser stopped - any position (a byte count, 1-based)
+        n = it.st.counter = getattr(it.st, "counter", 0) + 1
+        v = it.st.sym_bv("json_error_%s_%d" % (method_name(callee), n), 64)
+        it.st.assume(z3.ULT(v, 1 << 16))
+        return v
+
+    @reg("String::from_utf8_lossy")
+    def m_from_utf8_lossy(it, args, callee):
+        # lossy decoding of arbitrary bytes: some text of at most as many characters (each any scalar value; U+FFFD among them)
+        src = deref(args[0])
+        n = len(src.items) if hasattr(src, "items") else len(slice_of(src))
+        k = it.st.counter = getattr(it.st, "counter", 0) + 1
+        return Agg("adt:Cow", 1, [SString([it.st.sym_char("lossy%d_%d" % (k, i)) for i in range(n)])])
+
+    @reg("_eprint", "_print", "io::_eprint", "io::_print", "stdio::_eprint", "stdio::_print")
+    def m_print(it, args, callee):
+        return UNIT
 
     @reg("str::is_ascii")
     def m_str_is_ascii(it, args, callee):
